@@ -29,6 +29,7 @@ import (
 	"larking.io/larking"
 
 	"verif/dyn"
+	"verif/ref/wire"
 	"verif/report"
 )
 
@@ -158,8 +159,7 @@ func (b *scriptedBackend) Unary(c *dyn.Call) (proto.Message, error) {
 	defer b.mu.Unlock()
 	b.calls++
 	b.md, _ = metadata.FromIncomingContext(c.Ctx)
-	wireb, _ := proto.Marshal(c.Req)
-	b.got = append(b.got, wireb)
+	b.got = append(b.got, detMarshal(c.Req))
 	if b.sc.Code != codes.OK {
 		return nil, c10Status(b.sc).Err()
 	}
@@ -193,7 +193,7 @@ func (b *scriptedBackend) Stream(c *dyn.Call) error {
 		if err != nil {
 			return err
 		}
-		wireb, _ := proto.Marshal(m)
+		wireb := detMarshal(m)
 		b.mu.Lock()
 		b.got = append(b.got, wireb)
 		b.mu.Unlock()
@@ -309,18 +309,19 @@ func registerFileWithDeps(reg *protoregistry.Files, fd protoreflect.FileDescript
 
 // transcript of one call as seen from both ends
 type c10Transcript struct {
-	BackendGot int
-	BackendEOF bool
-	BackendMD  string
-	Replies    []string
-	Code       codes.Code
-	Msg        string
-	Details    int
-	Err        string
+	BackendGot  int
+	BackendMsgs string // the messages the back-end received, hex, in order
+	BackendEOF  bool
+	BackendMD   string
+	Replies     []string
+	Code        codes.Code
+	Msg         string
+	Details     int
+	Err         string
 }
 
 func (t c10Transcript) String() string {
-	return fmt.Sprintf("backend-got=%d eof=%v md=%s replies=%v status=%v %q details=%d %s", t.BackendGot, t.BackendEOF, t.BackendMD, t.Replies, t.Code, t.Msg, t.Details, t.Err)
+	return fmt.Sprintf("backend-got=%d [%s] eof=%v md=%s replies=%v status=%v %q details=%d %s", t.BackendGot, t.BackendMsgs, t.BackendEOF, t.BackendMD, t.Replies, t.Code, t.Msg, t.Details, t.Err)
 }
 
 func c10MD(sc c10Script) metadata.MD {
@@ -358,7 +359,7 @@ func (r *c10Real) grpcCall(cc *grpc.ClientConn, sc c10Script) c10Transcript {
 	}
 	if sc.Shape == "unary" {
 		reply := dynamicpb.NewMessage(r.t.rsp)
-		err := cc.Invoke(ctx, method, r.t.newReq("", []byte("msg-0"), 0), reply, copts...)
+		err := cc.Invoke(ctx, method, c10Msg(r.t, 0), reply, copts...)
 		if err == nil {
 			tr.Replies = append(tr.Replies, string(reply.Get(r.t.rsp.Fields().ByName("b")).Bytes()))
 		}
@@ -371,7 +372,7 @@ func (r *c10Real) grpcCall(cc *grpc.ClientConn, sc c10Script) c10Transcript {
 			tr.Err = "NewStream: " + err.Error()
 		} else {
 			for i := 0; i < sc.N; i++ {
-				if err := st.SendMsg(r.t.newReq("", []byte(fmt.Sprintf("msg-%d", i)), 0)); err != nil {
+				if err := st.SendMsg(c10Msg(r.t, i)); err != nil {
 					break
 				}
 				if sc.PingPong && sc.Shape == "bidi" && i < sc.K && (sc.ReadAll || i < sc.R) {
@@ -417,6 +418,7 @@ func (r *c10Real) grpcCall(cc *grpc.ClientConn, sc c10Script) c10Transcript {
 	}
 	r.be.mu.Lock()
 	tr.BackendGot, tr.BackendEOF = len(r.be.got), r.be.eof
+	tr.BackendMsgs = fmt.Sprintf("%x", r.be.got)
 	tr.BackendMD = fmt.Sprintf("%q/%q", r.be.md.Get("x-custom"), r.be.md.Get("x-custom-bin"))
 	r.be.mu.Unlock()
 	return tr
@@ -467,7 +469,7 @@ func (r *c10Real) httpCall(sc c10Script) (c10Transcript, error) {
 	var tr c10Transcript
 	var body bytes.Buffer
 	for i := 0; i < sc.N; i++ {
-		js, _ := protojson.Marshal(r.t.newReq("", []byte(fmt.Sprintf("msg-%d", i)), 0))
+		js, _ := protojson.Marshal(c10Msg(r.t, i))
 		body.Write(js)
 	}
 	// io.MultiReader hides the length: the body is sent chunked, as a streaming client does
@@ -518,6 +520,7 @@ func (r *c10Real) httpCall(sc c10Script) (c10Transcript, error) {
 	time.Sleep(2 * time.Millisecond)
 	r.be.mu.Lock()
 	tr.BackendGot, tr.BackendEOF = len(r.be.got), r.be.eof
+	tr.BackendMsgs = fmt.Sprintf("%x", r.be.got)
 	tr.BackendMD = fmt.Sprintf("%q/%q", r.be.md.Get("x-custom"), r.be.md.Get("x-custom-bin"))
 	r.be.mu.Unlock()
 	return tr, nil
@@ -972,4 +975,168 @@ func runC06Conformance(c *Ctx) {
 	}
 	r.AddValidated(validated)
 	r.Set("conformance", map[string]any{"what": "client-streaming and bidi sequences through real clients (grpc-go identity/gzip over h2c, net/http chunked JSON and varint-delimited protobuf) against larking.NewServer: handler log = sent sequence + io.EOF, replies complete", "cases": validated})
+}
+
+// ---- C15: client disconnect over real transports -------------------------------------------
+
+// discImpl: a handler that sends one reply and then waits for its context to be cancelled.
+type discImpl struct {
+	t      *tSchema
+	result chan string
+}
+
+func (d *discImpl) Unary(c *dyn.Call) (proto.Message, error) {
+	return dynamicpb.NewMessage(c.Desc.Output()), nil
+}
+
+func (d *discImpl) Stream(c *dyn.Call) error {
+	if c.Desc.IsStreamingClient() {
+		m := dynamicpb.NewMessage(c.Desc.Input())
+		if err := c.Stream.RecvMsg(m); err != nil {
+			d.result <- "recv failed: " + err.Error()
+			return err
+		}
+	} else {
+		m := dynamicpb.NewMessage(c.Desc.Input())
+		_ = c.Stream.RecvMsg(m)
+	}
+	if err := c.Stream.SendMsg(d.t.newRsp("", []byte("first"), 0)); err != nil {
+		d.result <- "send failed: " + err.Error()
+		return err
+	}
+	select {
+	case <-c.Stream.Context().Done():
+		d.result <- "cancelled"
+	case <-time.After(90 * time.Second):
+		d.result <- "still running 90 s after the client went away"
+	}
+	return nil
+}
+
+// runC15Disconnect: "when the client ... disconnects (gRPC, gRPC-web or plain HTTP), the
+// handler's context is cancelled": real clients against larking.NewServer on loopback - a raw
+// TCP client for gRPC-web and HTTP transcoding over HTTP/1.1 (request with Content-Length and
+// chunked, the terminating chunk arriving after the message), grpc-go over h2c. The client
+// reads the first reply and goes away; the handler must see its context cancelled (the bound
+// of 90 s only decides what "never" means; cancellation normally takes milliseconds).
+func runC15Disconnect(c *Ctx) {
+	r := c.Run
+	t, err := newTSchema()
+	if err != nil {
+		panic(err)
+	}
+	m, err := larking.NewMux(t.opts...)
+	if err != nil {
+		panic(err)
+	}
+	impl := &discImpl{t: t, result: make(chan string, 4)}
+	if err := m.VerifRegisterService(t.gsd, dyn.NewServer(impl)); err != nil {
+		panic(err)
+	}
+	front, err := startFront(m)
+	if err != nil {
+		r.Violation(report.Violation{Oracle: "conformance-setup", Key: "conformance-setup C15", Case: map[string]any{}, Note: err.Error()})
+		return
+	}
+	defer front.stop()
+	pb, _ := proto.Marshal(t.newReq("", []byte("q"), 0))
+	frame := wire.GRPCFrame(0, pb)
+	type rawCase struct {
+		name    string
+		head    string
+		body    []byte
+		chunked bool
+	}
+	cases := []rawCase{
+		{"grpc-web server-streaming, HTTP/1.1, Content-Length", "POST /vs.T/SS HTTP/1.1\r\nHost: x\r\nContent-Type: application/grpc-web+proto\r\n", frame, false},
+		{"grpc-web server-streaming, HTTP/1.1, chunked (terminating chunk after the message)", "POST /vs.T/SS HTTP/1.1\r\nHost: x\r\nContent-Type: application/grpc-web+proto\r\n", frame, true},
+		{"grpc-web-text server-streaming, HTTP/1.1, chunked", "POST /vs.T/SS HTTP/1.1\r\nHost: x\r\nContent-Type: application/grpc-web-text\r\n", wire.EncodeWebText(frame), true},
+		{"grpc-web bidi, HTTP/1.1, chunked", "POST /vs.T/Bidi HTTP/1.1\r\nHost: x\r\nContent-Type: application/grpc-web+proto\r\n", frame, true},
+		{"HTTP transcoding server-streaming GET, HTTP/1.1", "GET /t/ss/x HTTP/1.1\r\nHost: x\r\n", nil, false},
+		{"HTTP transcoding server-streaming POST, HTTP/1.1, chunked", "POST /t/ss HTTP/1.1\r\nHost: x\r\nContent-Type: application/json\r\n", []byte(`{"b":"cQ=="}`), true},
+	}
+	var validated int64
+	report1 := func(name, res string) {
+		validated++
+		r.Eval(1)
+		if res != "cancelled" {
+			r.Outcome("FAIL:handler-context-not-cancelled")
+			r.Violation(report.Violation{Oracle: "handler-context-not-cancelled", Key: "handler-context-not-cancelled real transport: " + name, Case: map[string]any{"kind": "real-transport-disconnect", "case": name}, Note: "the client read the first reply and closed the connection; handler: " + res})
+			return
+		}
+		r.Outcome("disconnect:handler-cancelled")
+	}
+	for _, rc := range cases {
+		conn, err := net.Dial("tcp", front.addr)
+		if err != nil {
+			r.CapHit("dial failed: " + err.Error())
+			continue
+		}
+		var req bytes.Buffer
+		req.WriteString(rc.head)
+		switch {
+		case rc.body == nil:
+			req.WriteString("\r\n")
+		case rc.chunked:
+			req.WriteString("Transfer-Encoding: chunked\r\n\r\n")
+			fmt.Fprintf(&req, "%x\r\n", len(rc.body))
+			req.Write(rc.body)
+			req.WriteString("\r\n")
+		default:
+			fmt.Fprintf(&req, "Content-Length: %d\r\n\r\n", len(rc.body))
+			req.Write(rc.body)
+		}
+		conn.Write(req.Bytes()) //nolint
+		if rc.chunked {
+			time.Sleep(50 * time.Millisecond) // the terminating chunk arrives after larking consumed the message
+			conn.Write([]byte("0\r\n\r\n"))   //nolint
+		}
+		// read until the first reply's bytes have arrived ("first" / its base64 / JSON form)
+		conn.SetReadDeadline(time.Now().Add(60 * time.Second)) //nolint
+		var got []byte
+		tmp := make([]byte, 4096)
+		for !bytes.Contains(got, []byte("first")) && !bytes.Contains(got, []byte("Zmlyc3Q")) && !bytes.Contains(got, []byte("ZpcnN0")) && !bytes.Contains(got, []byte("maXJzd")) {
+			n, err := conn.Read(tmp)
+			got = append(got, tmp[:n]...)
+			if err != nil {
+				break
+			}
+		}
+		conn.Close()
+		select {
+		case res := <-impl.result:
+			report1(rc.name, res)
+		case <-time.After(120 * time.Second):
+			report1(rc.name, "no report from the handler within 120 s (response so far: "+truncS(string(got), 120)+")")
+		}
+	}
+	// gRPC proper over h2c: a grpc-go client cancels after the first reply
+	cc := dial(front.addr)
+	defer cc.Close()
+	for _, shape := range []string{"ss", "bidi"} {
+		ctx, cancel := context.WithCancel(context.Background())
+		st, err := cc.NewStream(ctx, &grpc.StreamDesc{ClientStreams: shape == "bidi", ServerStreams: true}, "/vs.T/"+shapeMethod[shape])
+		if err == nil {
+			err = st.SendMsg(t.newReq("", []byte("q"), 0))
+		}
+		if err == nil && shape == "ss" {
+			err = st.CloseSend()
+		}
+		if err == nil {
+			err = st.RecvMsg(dynamicpb.NewMessage(t.rsp))
+		}
+		cancel()
+		if err != nil {
+			r.CapHit("grpc-go client could not get the first reply: " + err.Error())
+			continue
+		}
+		select {
+		case res := <-impl.result:
+			report1("gRPC "+shape+" over h2c, grpc-go client cancels", res)
+		case <-time.After(120 * time.Second):
+			report1("gRPC "+shape+" over h2c, grpc-go client cancels", "no report from the handler within 120 s")
+		}
+	}
+	r.AddValidated(validated)
+	r.Set("real_transport_disconnect", map[string]any{"what": "clients that read the first reply and go away (raw TCP for gRPC-web / gRPC-web-text / HTTP transcoding over HTTP/1.1 with Content-Length and chunked bodies; grpc-go over h2c): the handler's context must be cancelled", "cases": validated})
 }
